@@ -1,5 +1,5 @@
 """Importable module-level interfaces and classes for the pickle round trips of C13."""
-from zope.interface import (Interface, Attribute, implementer, implementer_only, classImplementsFirst, provider,
+from zope.interface import (Interface, Attribute, implementer, implementer_only, classImplementsFirst, classImplements, provider,
                             directlyProvides, alsoProvides)
 
 
@@ -69,5 +69,52 @@ class Plain:
     pass
 
 
-CLASSES = [Base, Inherits, Adds, Only, OnlySub, First, ClassProvided, ClassProvidedOnlyDirect, Plain]
-INTERFACES = [IA, IB, IC, IMarker, Interface]
+# declared with an *only* form and changed again afterwards (the specification is re-based / notified after the narrowing)
+@implementer_only(IC)
+class OnlyThenMore(Base):
+    pass
+
+
+classImplements(OnlyThenMore, IMarker)
+
+
+@implementer_only(IC)
+class OnlyThenFirst(Base):
+    pass
+
+
+classImplementsFirst(OnlyThenFirst, IMarker)
+
+
+class ILater(Interface):
+    pass
+
+
+@implementer_only(ILater)
+class OnlyWhoseInterfaceIsRebased(Base):
+    pass
+
+
+ILater.__bases__ = (IC,)
+
+
+class _CountingMeta(type):
+    """a registry-like class object that is falsy while it has no members"""
+
+    def __len__(cls):
+        return len(cls.members)
+
+
+@implementer(IC)
+class FalsyClass(metaclass=_CountingMeta):
+    members = ()
+
+
+@implementer_only(IC)
+class FalsyOnly(Base, metaclass=_CountingMeta):
+    members = ()
+
+
+CLASSES = [Base, Inherits, Adds, Only, OnlySub, First, ClassProvided, ClassProvidedOnlyDirect, Plain,
+           OnlyThenMore, OnlyThenFirst, OnlyWhoseInterfaceIsRebased, FalsyClass, FalsyOnly]
+INTERFACES = [IA, IB, IC, IMarker, ILater, Interface]
